@@ -310,20 +310,13 @@ def verdict(r):
     return sign_verdict(r)
 
 
-# How the sign of bit-field values is compared (coq/C08/TotalProofs.v c2m_bf_signed / sv_bf_signed).
-# TEMPORARY exact filter until fixes/C08-7.patch is in /repo: a bit-field narrower than 32 bits whose declared
-# type is an enum with a negative enumerator is read zero-extended by c2m and sign-extended by gcc (theorem
-# bf_sign_enum_eq_sysv_refuted).  Exactly these leaves may differ, and only in that direction; on a tree with
-# the fix they agree and the filter never applies.  The c2mir model is run with and without the fix: c2m must
-# follow one of the two on every leaf of the run (SIGN_VERSIONS collects which).
-SIGN_VERSIONS = set()
-
-
+# How the sign of bit-field values is compared (coq/C08/TotalProofs.v c2m_bf_signed / sv_bf_signed): one letter per
+# named bit-field, s = sign-extended, u = zero-extended; the model letters are c2mir without fixes/C08-7, c2mir with
+# it (= /repo since ceabc631), gcc.  c2m must read as gcc does and as the model of the fixed code says.
 def sign_verdict(r):
     cs, gs, ms, lv = r.get('c2m_sign', ''), r.get('gcc_sign', ''), r.get('m_sign', []), r.get('bf_leaves', [])
     if len(cs) != len(ms) or len(gs) != len(ms) or len(lv) != len(ms):
         return 'sign-unreadable' if (cs or gs or ms) else 'ok'
-    v = 'ok'
     for c, g, m, (bt, w) in zip(cs, gs, ms, lv):
         if g != m[2]:
             return 'model-sysv-sign'
@@ -331,19 +324,14 @@ def sign_verdict(r):
             # not compared between c2m and gcc (outside bf_sign_enum_eq_sysv_partial): at these widths the sign is
             # the signedness of the enum's underlying type, where c2mir (int/long) and gcc (unsigned when no
             # enumerator is negative) differ as C implementations; both are still tied to their models
-            if c != m[0]:
+            if c != m[1]:
                 return 'model-c2m-sign'
             continue
         if c != g:
-            if (c, g) == ('u', 's') and m == 'uss':
-                v = 'ok-known-enum-sign'      # the exact deviation fixes/C08-7 repairs
-            else:
-                return 'abi-mismatch-sign'
-        if m[0] != m[1]:
-            SIGN_VERSIONS.add('unfixed' if c == m[0] else 'fixed')
-        elif c != m[0]:
+            return 'abi-mismatch-sign'
+        if c != m[1]:
             return 'model-c2m-sign'
-    return v
+    return 'ok'
 
 
 def gen_decls(chk, n, salt):
@@ -407,7 +395,7 @@ def layout_part(chk, tools, decls, label):
             chk.dist('struct_member_transitions', tr)
         for bt, w in G.bf_leaves(t):
             chk.dist('bitfield_leaf_types', ('enum-' + bt[1] if bt[0] == 'e' else bt[1]) + (':full' if w == 8 * (G.ENUM_SIZE[bt[1]] if bt[0] == 'e' else G.KSIZE[bt[1]]) else ''))
-        if v not in ('ok', 'ok-known-enum-sign'):
+        if v != 'ok':
             bad.setdefault(v, []).append((t, r))
     chk.log('%s: %d declarations, verdicts %s' % (label, len(decls), {k: len(v) for k, v in bad.items()} or 'all ok'))
     seen = set()
@@ -624,10 +612,10 @@ def padding_witness(chk, tools):
 
 
 # GNU C: zero-length arrays and empty structs as members (c2m accepts them with a warning).  Outside C11, the
-# theorems (wf_ty) and the models: c2m is compared with gcc only.  TEMPORARY gate until fixes/C08-8.patch is in
-# /repo: the unfixed tree gives every zero-size member offset 0 and lets it take no part in the layout
-# (`struct { int n; char d[0]; }`: d at offset 0, gcc 4); while the witness shows exactly that, the stream is skipped.
+# theorems (wf_ty) and the models: c2m is compared with gcc only (fixed in /repo by 0d93d29b = fixes/C08-8.patch).
 GNUEXT_WITNESS = 's{ n bint ; n a0 bchar }'
+GNUEXT_CORPUS = ['s{ n bchar ; n a0 blong ; n bchar }', 's{ n bchar ; n s{ } ; n blong }', 's{ n a0 bchar ; g0 bchar ; n bbool ; f16 bushort }',
+                 's{ n bchar ; n a0 bint ; f3 bint }', 'u{ n a0 blong ; n bchar }', 's{ n bshort ; n a0 s{ n bshort } ; n a4 s{ } ; n bchar }']
 
 
 def gnuext_part(chk, tools, n):
@@ -635,17 +623,13 @@ def gnuext_part(chk, tools, n):
     res, info = tools.layout([w])
     chk.count('Z ' + GNUEXT_WITNESS)
     if res[0]['c2m'] != res[0]['gcc']:
-        if (res[0]['c2m'], res[0]['gcc']) == ('4 4 m0:4 m0:0', '4 4 m0:4 m4:0'):
-            chk.dist('gnu_zero_size_members', 'stream skipped: the tree has the known zero-size member defect (fixes/C08-8.patch not applied)')
-            chk.log('GNU zero-size members: witness %s shows the defect fixes/C08-8.patch repairs; stream skipped' % GNUEXT_WITNESS)
-            return
         chk.finding('layout-gnuext:' + GNUEXT_WITNESS, dict(kind='gnuext', decl=GNUEXT_WITNESS, c2m=res[0]['c2m'], gcc=res[0]['gcc']),
                     'c2m and gcc lay out a struct with a zero-length array member differently: %s c2m[%s] gcc[%s]' % (
                         GNUEXT_WITNESS, res[0]['c2m'], res[0]['gcc']))
         return
     rng = chk.rng('gnuext')
     g = G.Gen(rng, flex=False)
-    decls = [G.add_zero_size_members(rng, g.decl()) for _ in range(n)]
+    decls = [G.parse_text(x) for x in GNUEXT_CORPUS] + [G.add_zero_size_members(rng, g.decl()) for _ in range(n)]
     res, info = tools.layout(decls)
     bad = [(t, r) for t, r in zip(decls, res) if r['c2m'] is None or r['c2m'] != r['gcc']]
     for t, r in zip(decls, res):
@@ -752,10 +736,6 @@ def run(chk):
                     chk.sample(G.ty_text(t)[:300])
             for k, v in layout_part(chk, tools, decls, 'layout batch %d' % b).items():
                 bad.setdefault(k, []).extend(v)
-        chk.cov['bitfield_sign_model_version'] = sorted(SIGN_VERSIONS) or ['no enum bit-field with a negative enumerator seen']
-        if len(SIGN_VERSIONS) > 1:
-            DEFERRED.append(('tie:model-c2m-sign', dict(kind='layout', decl='s{ f2 eint ; f7 eneg8 }', versions=sorted(SIGN_VERSIONS)),
-                             'c2m follows neither version of c2m_bf_signed consistently (with / without fixes/C08-7) on enum bit-fields'))
         padding_witness(chk, tools)
         straddle_witness(chk, tools)
         align16_witness(chk, tools)
